@@ -50,7 +50,10 @@ mutual
 def hasTyB (st : StructTable) (n : Nat) (sT cT : String → Ty) : Ty → Exp → Bool
   | t, .lit j => litOkB st t j
   | t, .arr xs => t.arrDim != 0 && hasTyListB st n sT cT { t with arrDim := t.arrDim - 1 } xs
-  | t, .map kvs => t.arrDim == 0 && t.mapDim != 0 && hasTyFieldsB st n sT cT ⟨t.base, 0, t.mapDim - 1⟩ kvs
+  | t, .map kvs =>
+    (t.arrDim == 0 && t.mapDim != 0 && hasTyFieldsB st n sT cT ⟨t.base, 0, t.mapDim - 1⟩ kvs) ||
+    -- a reference-free literal where an untyped `map` (or another opaque type) is expected
+    (t.arrDim == 0 && t.mapDim == 0 && (st.lookup t.base).isNone && Exp.isJsonFields kvs)
   | t, .struct kvs => t.arrDim == 0 && t.mapDim == 0 &&
       match st.lookup t.base with
       | some ps => hasTyMembersB st n sT cT ps kvs && ps.all fun p => (kvs.lookup p.name).isSome
